@@ -40,6 +40,7 @@ def run(chk):
     r3(chk, prog, m)
     r4(chk, prog, m)
     r5(chk, prog, m)
+    r6(chk, prog, m)
     chk.undecided_clauses += [
         "the resulting document for generated multi-operation patches (needs an RFC 6902 reference evaluator and execution)",
         "JSON Pointer resolution inside each operation (C12)",
@@ -515,3 +516,70 @@ def r4(chk, prog, m):
 
 def r5(chk, prog, m):
     own.rule_leaks(chk, prog, "C13.R5", only_functions={f.name for f in _fns(m)}, floor=2)
+
+
+def _derives_from_param(f, v, pname, depth=0):
+    if v.kind != "reg" or depth > 12:
+        return False
+    if v.v == pname:
+        return True
+    d = f.defs.get(v.v)
+    if d is None:
+        return False
+    if d.op in ("getelementptr", "bitcast", "phi", "select", "inttoptr", "ptrtoint", "add", "sub"):
+        return any(_derives_from_param(f, o, pname, depth + 1) for o in d.ops)
+    return False
+
+
+def r6(chk, prog, m):
+    rid = "C13.R6"
+    chk.rule(rid, "a member name handed to json_object_object_del by the patch code is an unescaped reference token: the key recorded by "
+                  "pointer resolution points into the caller's pointer string (escaped form), so it must be unescaped (on a copy) before "
+                  "it is used as a member name")
+    jp = prog.module("json_pointer.c")
+    chk.require(jp is not None, "json_pointer.c not in the build")
+    # (1) how is json_pointer_get_result.key_in_parent produced?
+    escaped_sources = []
+    for f in [g for g in jp.functions.values() if not g.is_decl]:
+        P = Paths(f, prog)
+        for i in f.instrs():
+            if i.op == "store" and P.path(i.ops[1]).endswith("key_in_parent") and i.ops[0].kind == "reg":
+                for t, pn in f.params:
+                    if t == "i8*" and pn and not f.internal and _derives_from_param(f, i.ops[0], pn):
+                        escaped_sources.append((f, i, pn))
+    n = 0
+    for f in _fns(m):
+        P = Paths(f, prog)
+        cfg = cfg_of(f)
+        for i in f.instrs():
+            if i.op == "call" and i.callee in ("json_object_object_del", "json_object_object_add", "json_object_object_get_ex") and \
+                    "key_in_parent" in P.path(i.ops[1]):
+                n += 1
+                chk.touched(f)
+                sig = "%s(%s, %s)" % (i.callee, P.path(i.ops[0]), P.path(i.ops[1]))
+                if not escaped_sources:
+                    chk.proven(rid, f.name, sig, i.locstr(), "pointer resolution records an unescaped key")
+                else:
+                    sf, si, pn = escaped_sources[0]
+                    chk.refuted(rid, f.name, sig, i.locstr(),
+                                "the key recorded by %s (%s) points into the caller's pointer string '%s', i.e. the token in escaped form; it is "
+                                "used here as a member name without being unescaped, so 'remove'/'move' of a member whose name contains '/' or "
+                                "'~' finds nothing and still reports success" % (sf.name, si.locstr(), pn), {"call": i.raw})
+    # uses through an unescaped copy: a local buffer produced by strdup(key_in_parent) and passed to an unescape helper
+    for f in _fns(m):
+        P = Paths(f, prog)
+        cfg = cfg_of(f)
+        for i in f.instrs():
+            if i.op == "call" and i.callee == "json_object_object_del" and "key_in_parent" not in P.path(i.ops[1]):
+                kp = P.path(i.ops[1])
+                src = f.defs.get(i.ops[1].v) if i.ops[1].kind == "reg" else None
+                if src is not None and src.op == "call" and src.callee == "strdup" and "key_in_parent" in P.path(src.ops[0]):
+                    n += 1
+                    chk.touched(f)
+                    un = [c for c in f.instrs() if c.op == "call" and c.callee and "unescape" in c.callee and P.path(c.ops[0]) == kp and cfg.dominates(c, i)]
+                    sig = "%s(%s, copy of key_in_parent)" % (i.callee, P.path(i.ops[0]))
+                    if un or not escaped_sources:
+                        chk.proven(rid, f.name, sig, i.locstr(), "member name is an unescaped private copy of the token")
+                    else:
+                        chk.refuted(rid, f.name, sig, i.locstr(), "the copied token is used as a member name without being unescaped")
+    chk.floor(rid, n, 1, "member-name uses of the recorded key in json_patch.c")
